@@ -96,7 +96,14 @@ func (a *v4Adapter) start(conn *netsim.Conn, timeout time.Duration, tries int, l
 	opts := []nclient4.ClientOpt{nclient4.WithTimeout(timeout), nclient4.WithRetry(tries)}
 	// the documented logging configurations (what they print is discarded): a caller's own Logger in the short and in
 	// the full format, and the two built-in ones, which write to the process's standard error stream
-	switch logMode {
+	// knobs (logMode>>4): 1 — the client's hardware address is configured through WithHWAddr over another address
+	// given to the constructor (the interface's): the client's address is the configured one, everywhere
+	hw := cliHW
+	if logMode>>4 == 1 {
+		hw = net.HardwareAddr{0x02, 0xfe, 0xfe, 0xfe, 0xfe, 0x01}
+		opts = append(opts, nclient4.WithHWAddr(cliHW))
+	}
+	switch logMode & 15 {
 	case 1:
 		opts = append(opts, nclient4.WithLogger(nclient4.ShortSummaryLogger{Printfer: cliSink{}}))
 	case 2, 4:
@@ -107,7 +114,7 @@ func (a *v4Adapter) start(conn *netsim.Conn, timeout time.Duration, tries int, l
 		opts = append(opts, nclient4.WithDebugLogger())
 	}
 	defer quietStderr()()
-	c, err := nclient4.NewWithConn(conn, cliHW, opts...)
+	c, err := nclient4.NewWithConn(conn, hw, opts...)
 	a.c, a.conn = c, conn
 	return err
 }
@@ -271,7 +278,7 @@ func (a *v6Adapter) setDest(sel int) { a.destSel = sel }
 func (a *v6Adapter) name() string { return "nclient6" }
 func (a *v6Adapter) start(conn *netsim.Conn, timeout time.Duration, tries int, logMode int) error {
 	opts := []nclient6.ClientOpt{nclient6.WithTimeout(timeout), nclient6.WithRetry(tries)}
-	switch logMode {
+	switch logMode & 15 {
 	case 1:
 		opts = append(opts, nclient6.WithLogDroppedPackets())
 	case 2:
